@@ -68,6 +68,10 @@ _BOUND = [_Threshold(1).exceeded, _Threshold(2).exceeded]
 _isk = lambda k, x: isinstance(x, k)  # noqa: E731
 _PARTIALS = [_functools.partial(_isk, int), _functools.partial(_isk, str)]
 _CALLABLES = [_Threshold(1), _Threshold(2)]
+# one definition site, one code object, no closure: what differs is a default argument (the `lambda x, k=k:` idiom of loops and
+# comprehensions) or a keyword-only default
+_DEFAULTED = [lambda x, k=k: isinstance(x, k) for k in (int, str)]
+_KWDEFAULTED = [lambda x, *, k=k: isinstance(x, k) for k in (int, str)]
 
 
 def atom_thunks():
@@ -160,6 +164,11 @@ def atom_thunks():
         add(f"fn partial #{i}", lambda i=i: fn_p(_PARTIALS[i]))
         add(f"tee same-name #{i}", lambda i=i: tee_p(_SN_FNS[i]))
         add(f"comp same-name #{i} truthy", lambda i=i: comp_p(_SN_FNS[i], is_truthy_p))
+        add(f"fn one site, default #{i}", lambda i=i: fn_p(_DEFAULTED[i]))
+        add(f"fn one site, keyword default #{i}", lambda i=i: fn_p(_KWDEFAULTED[i]))
+        add(f"comp one site, default #{i} truthy", lambda i=i: comp_p(_DEFAULTED[i], is_truthy_p))
+        add(f"comp one site, keyword default #{i} truthy", lambda i=i: comp_p(_KWDEFAULTED[i], is_truthy_p))
+        add(f"tee one site, default #{i}", lambda i=i: tee_p(_DEFAULTED[i]))
     for i in range(2):
         add(f"comp fn{i} eq 1", lambda i=i: comp_p(lift.FNS[i], eq_p(1)))
     add("comp fn0 eq 2", lambda: comp_p(lift.FNS[0], eq_p(2)))
@@ -228,3 +237,53 @@ def composite_thunks(rng, atoms, n):
 
 
 PROBE_VALUES = ["cafe\u0301", "caf\u00e9", [0], [None], [""], [[]], (0,), {0}, [0, 0], (None, 0), [False], 0, 0.5, 1, 1.5, 2, 2.5, 3, 3.5, True, False, None, "a", "", "foo", "foobar", "bar", "FOO", "Foobar", "aaa", [], [1], [1, 2], (1,), (1, "a"), ("a", 1), (), {1}, {1, 2}, set(), {"a": 1}, {"a": 1, "b": "x"}, {}, {"b": 2}, {1: 1}]
+
+
+def constants_of(p, depth=0, acc=None):
+    """The numeric constants held anywhere in a predicate object (dataclass fields, members of set / tuple parameters)."""
+    import dataclasses
+
+    acc = [] if acc is None else acc
+    if depth > 6:
+        return acc
+    if isinstance(p, bool):
+        return acc
+    if isinstance(p, (int, float)):
+        acc.append(p)
+    elif isinstance(p, (set, frozenset, tuple, list)):
+        for e in list(p)[:8]:
+            constants_of(e, depth + 1, acc)
+    elif dataclasses.is_dataclass(p) and not isinstance(p, type):
+        for f in dataclasses.fields(p):
+            try:
+                constants_of(getattr(p, f.name), depth + 1, acc)
+            except Exception:  # noqa: BLE001
+                pass
+    return acc
+
+
+def neighbours_of(p):
+    """Values next to the predicate's own constants: the adjacent doubles, a relative 1e-12 / 1e-10 away, the next integers, and the
+    float / int of equal value -- where a tolerance, a rounding or an off-by-one in a comparison shows and nowhere else."""
+    import math
+
+    out = []
+    for c in constants_of(p)[:6]:
+        try:
+            f = float(c)
+        except (OverflowError, ValueError):
+            continue
+        if math.isnan(f) or math.isinf(f):
+            continue
+        out += [math.nextafter(f, math.inf), math.nextafter(f, -math.inf), f * (1 + 1e-12), f * (1 - 1e-10), f + 1e-9, f]
+        if isinstance(c, int) and abs(c) < 2**53:
+            out += [c - 1, c + 1, c]
+        elif isinstance(c, float) and f == int(f) and abs(f) < 2**53:
+            out += [int(f)]
+    seen, res = set(), []
+    for v in out:
+        k = (type(v).__name__, repr(v))
+        if k not in seen:
+            seen.add(k)
+            res.append(v)
+    return res
